@@ -673,7 +673,9 @@ fn oracle(p: &Plan, o: &Obs, h: &History, seen: &Seen, g: &mut G) -> Verdict {
                             break;
                         }
                     }
-                    Err(_) => break,
+                    // the caller may read again after an error (it does, 0..2 times): a body that was cut
+                    // must not turn into a clean end on a later read either
+                    Err(_) => {}
                 }
             }
             let _ = h;
